@@ -6,6 +6,7 @@ re-executed once per feasible decision prefix.  Obligations are (name, path-cond
 are discharged by z3 (cvc5 as second opinion) after the path ends.
 """
 import itertools
+import os
 import threading
 import time
 
@@ -457,6 +458,42 @@ def solve_frontend(pc, goal, timeout_ms=5000, extra=()):
         pass
     finally:
         timer.cancel()
+    return "unknown", None, time.time() - t
+
+
+CVC5 = "/usr/bin/cvc5"
+
+
+def solve_cvc5(pc, goal, timeout_ms=5000, extra=()):
+    """Second solver: cvc5 with finite model finding on the same SMT-LIB text (z3's MBQI leaves many satisfiable quantified queries
+    `unknown` that have small finite models).  sat / unsat have the same standing as z3's; parse errors and timeouts are `unknown`."""
+    import subprocess
+    import tempfile
+    if not os.path.exists(CVC5):
+        return "unknown", None, 0.0
+    t = time.time()
+    try:
+        src = smt2_of(list(pc) + list(extra), goal)
+    except Exception:
+        return "unknown", None, 0.0
+    src = "(set-option :produce-models true)\n(set-logic ALL)\n" + src.replace("(check-sat)", "(check-sat)\n(get-model)")
+    fd, path = tempfile.mkstemp(suffix=".smt2", prefix="pyvc_")
+    try:
+        with os.fdopen(fd, "w") as f:
+            f.write(src)
+        p = subprocess.run([CVC5, "--finite-model-find", f"--tlimit={int(timeout_ms)}", path], capture_output=True, text=True, timeout=timeout_ms / 1000.0 + 5)
+        out = p.stdout.strip()
+        if out.startswith("sat"):
+            return "sat", TextModel("cvc5 --finite-model-find: " + out[3:].strip()), time.time() - t
+        if out.startswith("unsat"):
+            return "unsat", None, time.time() - t
+    except Exception:
+        pass
+    finally:
+        try:
+            os.unlink(path)
+        except OSError:
+            pass
     return "unknown", None, time.time() - t
 
 
